@@ -91,6 +91,9 @@ def corpus_cases(ctx, v, n_files=0, all_files=False, n_w3=0, w4=True, w1=True, m
         if w4_filter is None:
             cases.extend(gen_w4.twin_sequences(pyver(v)))
             cases.extend(gen_w4.odd_filename_cases(pyver(v)))
+            if pyver(v) >= (3, 10):
+                for id_, text, stmt in gen_w4.noline_sources(pyver(v)):
+                    cases.append({"k": "astnoline", "id": "w4:" + id_, "text": text, "stmt": stmt})
         t = gen_w4.templates(pyver(v), ctx.tier)
         for i, (id_, _s, _m, _o) in enumerate(t):
             if max_w4_bytes and len(_s) > max_w4_bytes:
